@@ -29,7 +29,7 @@ RULE = ('case = batch of generated values, one real task per value (JSONData dic
         'equality (bool!=int, float bits, dtype, shape, order) + file hashes unchanged by load. non-trivial = value is not a flat '
         'scalar/empty container (depth>=2, or boundary number, or non-ASCII text, or >=2-d / non-default dtype array, or >=11 list items); '
         'distinct = typed canonical digest of (kind, value)')
-REQUIRED = ['values', 'failed_first_attempts', 'long_sequences', 'json_values', 'numpy_values', 'pandas_values', 'generated_values', 'lazy_values', 'listnp_values', 'dir_values',
+REQUIRED = ['values', 'failed_first_attempts', 'long_sequences', 'forced_type_morphs', 'loaded_arrays_mutated_in_place', 'json_values', 'numpy_values', 'pandas_values', 'generated_values', 'lazy_values', 'listnp_values', 'dir_values',
             'fresh_chain_loads', 'fresh_process_loads', 'file_hash_checks', 'falsy_top_level', 'zero_d_arrays', 'lists_over_10_arrays']
 ASSUMPTIONS = ['domain per the property statement: NaN/inf in JSON, tuples, non-string keys, lone surrogates, integers outside 64 bit, '
                'object/structured arrays are outside it and not generated',
@@ -78,8 +78,13 @@ def gen_json_top(rng):
             return v
 
 
-def gen_array(rng):
+def gen_array(rng, allow_big=True):
     import numpy as np
+    if allow_big and rng.random() < 0.02:
+        # files above round sizes (1 MiB): loaders that switch strategy for big files
+        n = rng.choice([2 ** 17 + 3, 2 ** 18 + 1])
+        a = (np.arange(n, dtype='float64') * 0.5 + rng.randrange(1000))
+        return a if rng.random() < 0.5 else a.reshape(-1, 1)
     dt = rng.choice(['bool', 'int8', 'int16', 'int32', 'int64', 'uint8', 'uint16', 'uint32', 'uint64', 'float16', 'float32', 'float64',
                      'complex64', 'complex128', '<U1', '<U7', 'S1', 'S5', '>i4', '>f8', '>u2', '<i2', '>U3', 'float64', 'int64'])
     nd = rng.choice([0, 0, 1, 1, 2, 2, 3, 4])
@@ -178,6 +183,29 @@ def gen_items(rng):
     return [gen_json(rng, 0, rng.choice([0, 1, 3])) for _ in range(n)]
 
 
+def type_morph(v):
+    """a value that python considers == v but whose element types differ (1 -> 1.0, True -> 1, 2.0 -> 2); None if v has nothing to morph"""
+    changed = [False]
+
+    def go(x):
+        if isinstance(x, bool):
+            changed[0] = True
+            return int(x)
+        if isinstance(x, int) and abs(x) < 2 ** 53:
+            changed[0] = True
+            return float(x)
+        if isinstance(x, float) and x == x and abs(x) < 2 ** 53 and x == int(x) and not (x == 0 and str(x).startswith('-')):
+            changed[0] = True
+            return int(x)
+        if isinstance(x, list):
+            return [go(y) for y in x]
+        if isinstance(x, dict):
+            return {k: go(y) for k, y in x.items()}
+        return x
+    out = go(v)
+    return out if changed[0] and out == v else None
+
+
 class _Unstorable:
     """neither JSON nor pickle can write it"""
 
@@ -188,7 +216,7 @@ class _Unstorable:
 def poisoned(rng, kind, v):
     """a value of the same task whose storing fails part-way, after MORE has been written than the final value holds; None = not built for this kind"""
     if kind == 'listnp':
-        return list(v) + [gen_array(rng) for _ in range(rng.randint(1, 4))] + [_Unstorable()]
+        return list(v) + [gen_array(rng, allow_big=False) for _ in range(rng.randint(1, 4))] + [_Unstorable()]
     if kind in ('generated', 'lazy'):
         return list(v) + [{'extra': i} for i in range(rng.randint(1, 4))] + [_Unstorable()]
     if kind == 'json' and isinstance(v, dict):
@@ -219,7 +247,7 @@ def gen_value(rng, kind):
     if kind in ('generated', 'lazy'):
         return gen_items(rng)
     if kind == 'listnp':
-        return [gen_array(rng) for _ in range(rng.choice([0, 1, 2, 3, 11, 12, 25, 30]))]
+        return [gen_array(rng, allow_big=False) for _ in range(rng.choice([0, 1, 2, 3, 11, 12, 25, 30]))]
     if kind == 'dir':
         return gen_tree(rng)
     raise ValueError(kind)
@@ -443,6 +471,29 @@ def run_case(case) -> CaseResult:
             ok_idx.append(i)
             if nontrivial(k, v):
                 res.nt(jhash([k, want]))
+        # forced recomputation over an existing result that returns an equal value of other element types: the stored result is replaced
+        for i in list(ok_idx):
+            if kinds[i] in ('json', 'generated', 'lazy') and rng.random() < case.get('force_morph', 0.0):
+                if kinds[i] == 'json' and not isinstance(values[i], (list, dict)):
+                    continue        # the declared return type of a scalar task would change
+                mv = type_morph(values[i])
+                if mv is None:
+                    continue
+                values[i] = mv
+                wit = {'kind': kinds[i], 'value': short(mv, 600), 'index': i, 'seed': case['seed'], 'forced_with_equal_value_of_other_types': True}
+                try:
+                    t = chain1[f't{i}']
+                    t.force()
+                    gotf = observed_form(kinds[i], t.value)
+                except Exception as e:
+                    res.violate(f'{kinds[i]}: forced recomputation raised {type(e).__name__}: {e}', witness=wit)
+                    ok_idx.remove(i)
+                    continue
+                canon_run[i] = tcanon(mv)
+                res.count('forced_type_morphs')
+                if tcanon(gotf) != canon_run[i]:
+                    res.violate(f'{kinds[i]}: forced recomputation returned {short(gotf, 300)} but run returned {short(mv, 300)}', witness=wit)
+                    ok_idx.remove(i)
         c06mod.VALUES = None                    # from here on any run is an error (the loader must load)
         before = tree_hash(data_dir)
         chain2 = Config(data_dir, name='c06', data={'tasks': ['c06mod.*']}).chain()
@@ -462,6 +513,18 @@ def run_case(case) -> CaseResult:
             res.count('fresh_chain_loads')
             if tcanon(got2) != canon_run[i]:
                 res.violate(f'{k}: fresh chain loaded {short(got2, 400)} but run returned {short(v, 400)}', witness=wit)
+            elif k in ('numpy', 'listnp'):
+                # a consumer works on the loaded arrays in place: that is its own copy, the stored result must not follow
+                import numpy as np
+                for arr in ([got2] if k == 'numpy' else list(got2)):
+                    try:
+                        if isinstance(arr, np.ndarray) and arr.size and arr.dtype.kind in 'iufcb':
+                            arr[...] = 1
+                            res.count('loaded_arrays_mutated_in_place')
+                            if hasattr(arr, 'flush'):
+                                arr.flush()
+                    except (ValueError, TypeError):
+                        res.count('loaded_arrays_read_only')
         after = tree_hash(data_dir)
         res.count('file_hash_checks', len(before))
         if before != after:
@@ -505,4 +568,4 @@ def cases(tier, seed):
     n = 160 if tier == 'quick' else 6000
     for i in range(n):
         yield {'n': 30, 'seed': rng.randrange(1 << 30), 'kinds': ALL_KINDS, 'fresh_process': i % (5 if tier == 'quick' else 3) == 0,
-               'failed_first': 0.25 if i % 2 else 0.0}
+               'failed_first': 0.25 if i % 2 else 0.0, 'force_morph': 0.3 if i % 3 == 0 else 0.0}
